@@ -139,6 +139,10 @@ func cmdCheck(args []string) int {
 	if *timeout > 0 {
 		to = *timeout
 	}
+	outRoot := filepath.Join(*verifDir, "out")
+	if r := os.Getenv("GOVC_OUT"); r != "" {
+		outRoot = r
+	}
 	seed := 0
 	if s := os.Getenv("VERIF_SEED"); s != "" {
 		seed, _ = strconv.Atoi(s)
@@ -147,9 +151,16 @@ func cmdCheck(args []string) int {
 		dir  string
 		pkgs []string
 	}
-	mods := []modSpec{{cfg.ModuleDir, cfg.Packages}}
+	// GOVC_REPO: check a scratch worktree instead of /repo (used by the self-test, which mutates the tree)
+	reroot := func(d string) string {
+		if r := os.Getenv("GOVC_REPO"); r != "" && strings.HasPrefix(d, "/repo") {
+			return r + strings.TrimPrefix(d, "/repo")
+		}
+		return d
+	}
+	mods := []modSpec{{reroot(cfg.ModuleDir), cfg.Packages}}
 	for _, x := range cfg.Extra {
-		mods = append(mods, modSpec{x.ModuleDir, x.Packages})
+		mods = append(mods, modSpec{reroot(x.ModuleDir), x.Packages})
 	}
 	var reports []*FuncReport
 	for _, m := range mods {
@@ -187,7 +198,7 @@ func cmdCheck(args []string) int {
 	for _, r := range reports {
 		all = append(all, r.obs...)
 	}
-	outDir := filepath.Join(*verifDir, "out", "vc", cfg.ID)
+	outDir := filepath.Join(outRoot, "vc", cfg.ID)
 	_ = os.RemoveAll(outDir)
 	Discharge(all, outDir, to, 16)
 
@@ -199,7 +210,7 @@ func cmdCheck(args []string) int {
 	var toolErrs []string
 	solverTime := 0.0
 	backends := map[string]int{}
-	replayDir := filepath.Join(*verifDir, "out", "replays", cfg.ID)
+	replayDir := filepath.Join(outRoot, "replays", cfg.ID)
 	_ = os.RemoveAll(replayDir)
 	seenErr := map[string]bool{}
 	for _, r := range reports {
